@@ -422,3 +422,14 @@ def SameHeadRules(prog, rng):
     pred['rules'] = new_rules
     break
   return p
+
+
+def PredsRead(pred):
+  """Names of the predicates a predicate's rules mention."""
+  used = set()
+
+  def Use(node):
+    if node.get('k') in ('atom', 'pcall'):
+      used.add(node['p'])
+  Walk(pred['rules'], Use)
+  return used
